@@ -83,7 +83,7 @@ def image_case(src, asan, idx, seed, tier):
     chosen = invs if tier != "quick" else [invs[0], invs[1]] + r.sample(invs[2:], 5)
     pristine = open(img, "rb").read()
     for label, cmd, writes in chosen:
-        shutil.rmtree(aux, ignore_errors=True)
+        subprocess.run(["rm", "-rf", aux])      # rdump of a damaged tree can be nested deeper than Python's recursion limit
         os.makedirs(aux, exist_ok=True)
         rc, why = run_san(cmd, env)
         nrun += 1
@@ -95,7 +95,7 @@ def image_case(src, asan, idx, seed, tier):
     for p in (img, aux + ".raw", aux + ".qcow"):
         if os.path.exists(p):
             os.unlink(p)
-    shutil.rmtree(aux, ignore_errors=True)
+    subprocess.run(["rm", "-rf", aux])      # rdump of a damaged tree can be nested deeper than Python's recursion limit
     return {"kind": "image", "base": name, "mke2fs": opts, "operators": desc, "case_index": idx}, bad, nrun
 
 
